@@ -300,7 +300,12 @@ class Verifier:
                 if getattr(ob, "nia", False):
                     text = dom.emit(ob.decl, ob.bounds, list(ob.hyps), ob.goal, nia=True)
                 else:
-                    text = dom.emit(ob.decl, ob.bounds, list(ob.hyps), ob.goal)
+                    wide_ = None
+                    if ob.mode == "lia" and getattr(ob, "run", None) is not None and ob.run.c.opts.get("wide"):
+                        wide_ = int(ob.run.c.opts["wide"])
+                    elif ob.mode == "lia" and ob.kind == "post" and getattr(ob, "run", None) is not None and ob.run.c.opts.get("widepost"):
+                        wide_ = int(ob.run.c.opts["widepost"])   # postconditions over whole digit arrays: no cap on the cone
+                    text = dom.emit(ob.decl, ob.bounds, list(ob.hyps), ob.goal, wide=wide_) if wide_ else dom.emit(ob.decl, ob.bounds, list(ob.hyps), ob.goal)
                 ob.smt_size = len(text)
                 ob.smt_hash = hashlib.sha256(text.encode()).hexdigest()[:16]
                 r = smt.run_portfolio(text, timeout=self.timeout, need=self.need, fast=(ob.mode == "group"))
@@ -348,7 +353,7 @@ def _discharge_ring(self, ob, dom):
         ob.smt_size = len(text)
         r = smt.run_portfolio(text, timeout=self.timeout, need=self.need if rounds > 1 else 1)
         total += r.secs
-        if r.status != "sat" or rounds > 40 or _t.time() - t0 > 6 * self.timeout:
+        if r.status != "sat" or rounds > 40 or _t.time() - t0 > 6 * self.timeout * smt.slack():
             break
         names = dom.last_names
         polys = {}
